@@ -15,7 +15,7 @@ VARIABLES pin,     \* [request -> rule set pinned at pop]
           stage    \* [request -> number of stages run]
 mcvars == <<pvars, pin, stage>>
 
-RulesV(v) == <<[name |-> "r1", tag |-> 10 * v + 1], [name |-> "r2", tag |-> 10 * v + 2]>>
+RulesV(v) == <<[name |-> "r1", tag |-> 100 * v + 1], [name |-> "r2", tag |-> 100 * v + 2]>>
 Names2 == {"r1", "r2"}
 StageNames(k) == IF k = 1 THEN {"r1"} ELSE {"r2"}
 
